@@ -174,6 +174,14 @@ void vmain(void)
   int f;
   sym_inputs();
   ASSUME(setfail <= 3 && exec_errno <= 2 && fdfail <= 4);
+#ifdef UIDTPL
+  /* template: record  a NUL <10 symbolic digits> NUL 1 NUL / NUL NUL NUL  (NL = 19): uid values
+   * that only fit in 64 bits (e.g. 4294967296) are inside this family; the uid the process ends
+   * up with is what setuid() makes of them, and it must never be 0 when qmail-local starts */
+  ng[0] = 'a'; ng[1] = 0;
+  for (i = 2; i < 12; ++i) ASSUME(ng[i] >= '0' && ng[i] <= '9');
+  ng[12] = 0; ng[13] = '1'; ng[14] = 0; ng[15] = '/'; ng[16] = 0; ng[17] = 0; ng[18] = 0;
+#endif
   for (i = 0; i < LL; ++i) { ASSUME(rl[i] != 0); recip[i] = (char) rl[i]; }
   recip[LL] = '@';
   for (i = 0; i < DL; ++i) { ASSUME(dm[i] != 0); recip[LL + 1 + i] = (char) dm[i]; }
